@@ -190,10 +190,35 @@ func convertRulesToNewConfig(rules map[string]any) *config.V2SamplerConfig {
 	return newConfig
 }
 
+// dropNullValues removes every "Value: null" pair from the mappings of a YAML document.
+func dropNullValues(n *yaml.Node) {
+	if n.Kind == yaml.MappingNode {
+		kept := n.Content[:0]
+		for i := 0; i+1 < len(n.Content); i += 2 {
+			if n.Content[i].Value == "Value" && n.Content[i+1].Tag == "!!null" {
+				continue
+			}
+			kept = append(kept, n.Content[i], n.Content[i+1])
+		}
+		n.Content = kept
+	}
+	for _, c := range n.Content {
+		dropNullValues(c)
+	}
+}
+
 func ConvertRules(rules map[string]any, w io.Writer) {
 	newConfig := convertRulesToNewConfig(rules)
 	w.Write([]byte(fmt.Sprintf("# Automatically generated on %s\n", time.Now().Format(time.RFC3339))))
-	yaml.NewEncoder(w).Encode(newConfig)
+	// conditions without a value (exists, not-exists, has-root-span) must not be written as
+	// "Value: null", which v2 validation rejects
+	var doc yaml.Node
+	if err := doc.Encode(newConfig); err == nil {
+		dropNullValues(&doc)
+		yaml.NewEncoder(w).Encode(&doc)
+	} else {
+		yaml.NewEncoder(w).Encode(newConfig)
+	}
 
 	warningText := `
 WARNING: Version 2 of Refinery has changed the way that sample rates are calculated for
